@@ -13,7 +13,9 @@ def B(*xs):
 # one key of every type; kt carries a time to live
 PRE = [B('SET', 'ks', '10'), B('SET', 'kt', 'text', 'EX', '1000'), B('RPUSH', 'kl', 'a', 'b', 'c', 'b'), B('SADD', 'kS', 'a', 'b', 'c'),
        B('SADD', 'kS2', 'b', 'c', 'd'), B('HSET', 'kh', 'f', '1', 'g', 'x'), B('ZADD', 'kz', '1', 'a', '2', 'b', '3', 'c'),
-       B('XADD', 'kx', '1-1', 'f', 'v'), B('XADD', 'kx', '2-0', 'g', 'w')]
+       B('XADD', 'kx', '1-1', 'f', 'v'), B('XADD', 'kx', '2-0', 'g', 'w'),
+       # a consumer group on kx positioned at the start, 1-1 delivered to (and pending for) consumer c1
+       B('XGROUP', 'CREATE', 'kx', 'grp', '0-0'), B('XREADGROUP', 'GROUP', 'grp', 'c1', 'COUNT', '1', 'STREAMS', 'kx', '>')]
 
 PRE_KEYS = [b'ks', b'kt', b'kl', b'kS', b'kS2', b'kh', b'kz', b'kx']
 
@@ -105,6 +107,27 @@ FORMS = [B(*f) for f in [
     ('XDEL', 'kx', '1-1'), ('XDEL', 'kx', '1-1', '7-7', '1-1'), ('XDEL', 'kx', '1-1', '2-0'), ('XDEL', 'nokey', '1-1'), ('XDEL', 'kl', '1-1'),
     ('XTRIM', 'kx', 'MAXLEN', '1'), ('XTRIM', 'kx', 'MAXLEN', '0'), ('XTRIM', 'kx', 'MAXLEN', '5'), ('XTRIM', 'nokey', 'MAXLEN', '1'),
     ('XREAD', 'STREAMS', 'kx', '0-0'), ('XREAD', 'COUNT', '1', 'STREAMS', 'kx', '0-0'), ('XREAD', 'STREAMS', 'kx', '2-0'), ('XREAD', 'STREAMS', 'kx', '1-1'),
+    # consumer groups (group grp on kx: 1-1 pending for c1, 2-0 not yet delivered)
+    ('XREADGROUP', 'GROUP', 'grp', 'c2', 'STREAMS', 'kx', '>'), ('XREADGROUP', 'GROUP', 'grp', 'c2', 'COUNT', '1', 'STREAMS', 'kx', '>'),
+    ('XREADGROUP', 'GROUP', 'grp', 'c2', 'NOACK', 'STREAMS', 'kx', '>'), ('XREADGROUP', 'GROUP', 'grp', 'c1', 'COUNT', '5', 'NOACK', 'STREAMS', 'kx', '>'),
+    ('XREADGROUP', 'group', 'grp', 'c2', 'count', '1', 'noack', 'streams', 'kx', '>'), ('XREADGROUP', 'GROUP', 'grp', 'c1', 'STREAMS', 'kx', '0-0'),
+    ('XREADGROUP', 'GROUP', 'grp', 'c2', 'STREAMS', 'kx', '0-0'), ('XREADGROUP', 'GROUP', 'nogroup', 'c1', 'STREAMS', 'kx', '>'),
+    ('XREADGROUP', 'GROUP', 'grp', 'c1', 'STREAMS', 'nokey', '>'), ('XREADGROUP', 'GROUP', 'grp', 'c1', 'STREAMS', 'kl', '>'), ('XREADGROUP', 'GROUP', 'grp', 'c1', 'STREAMS', 'kx'),
+    ('XACK', 'kx', 'grp', '1-1'), ('XACK', 'kx', 'grp', '1-1', '1-1', '2-0'), ('XACK', 'kx', 'grp', '9-9'), ('XACK', 'kx', 'nogroup', '1-1'), ('XACK', 'nokey', 'grp', '1-1'),
+    ('XACK', 'kl', 'grp', '1-1'), ('XACK', 'kx', 'grp'), ('XACK', 'kx', 'grp', 'x'),
+    ('XCLAIM', 'kx', 'grp', 'c2', '0', '1-1'), ('XCLAIM', 'kx', 'grp', 'c2', '0', '1-1', 'JUSTID'), ('XCLAIM', 'kx', 'grp', 'c2', '0', '1-1', 'justid'),
+    ('XCLAIM', 'kx', 'grp', 'c2', '0', '2-0'), ('XCLAIM', 'kx', 'grp', 'c2', '0', '2-0', 'FORCE'), ('XCLAIM', 'kx', 'grp', 'c2', '0', '2-0', 'FORCE', 'JUSTID'),
+    ('XCLAIM', 'kx', 'grp', 'c1', '0', '1-1'), ('XCLAIM', 'kx', 'grp', 'c2', '0', '1-1', '2-0', '9-9'), ('XCLAIM', 'kx', 'grp', 'c2', '999999999', '1-1'),
+    ('XCLAIM', 'kx', 'nogroup', 'c2', '0', '1-1'), ('XCLAIM', 'nokey', 'grp', 'c2', '0', '1-1'), ('XCLAIM', 'kx', 'grp', 'c2', 'x', '1-1'), ('XCLAIM', 'kx', 'grp', 'c2', '0'),
+    ('XPENDING', 'kx', 'grp'), ('XPENDING', 'kx', 'grp', '-', '+', '10'), ('XPENDING', 'kx', 'grp', '-', '+', '10', 'c1'), ('XPENDING', 'kx', 'grp', '-', '+', '10', 'c2'),
+    ('XPENDING', 'kx', 'grp', '2-0', '+', '10'), ('XPENDING', 'kx', 'grp', '-', '+', '0'), ('XPENDING', 'kx', 'nogroup'), ('XPENDING', 'nokey', 'grp'), ('XPENDING', 'kl', 'grp'),
+    ('XPENDING', 'kx', 'grp', '-', '+'), ('XPENDING', 'kx', 'grp', '-', '+', 'x'), ('XPENDING', 'kx'),
+    ('XGROUP', 'CREATE', 'kx', 'g2', '$'), ('XGROUP', 'CREATE', 'kx', 'g2', '0-0'), ('XGROUP', 'CREATE', 'kx', 'g2', '1-1'), ('XGROUP', 'CREATE', 'kx', 'grp', '$'),
+    ('XGROUP', 'CREATE', 'new', 'g2', '$'), ('XGROUP', 'CREATE', 'new', 'g2', '$', 'MKSTREAM'), ('XGROUP', 'create', 'new', 'g2', '0-0', 'mkstream'), ('XGROUP', 'CREATE', 'kl', 'g2', '$'),
+    ('XGROUP', 'CREATE', 'kx', 'g2', 'bad'), ('XGROUP', 'DESTROY', 'kx', 'grp'), ('XGROUP', 'DESTROY', 'kx', 'nogroup'), ('XGROUP', 'DESTROY', 'nokey', 'grp'),
+    ('XGROUP', 'SETID', 'kx', 'grp', '$'), ('XGROUP', 'SETID', 'kx', 'grp', '0-0'), ('XGROUP', 'SETID', 'kx', 'nogroup', '$'), ('XGROUP', 'DELCONSUMER', 'kx', 'grp', 'c1'),
+    ('XGROUP', 'DELCONSUMER', 'kx', 'grp', 'c9'), ('XGROUP', 'CREATECONSUMER', 'kx', 'grp', 'c2'), ('XGROUP', 'CREATECONSUMER', 'kx', 'grp', 'c1'), ('XGROUP', 'BOGUS', 'kx', 'grp'),
+    ('XGROUP',), ('XDEL', 'kx', '1-1'), ('XADD', 'kx', '7-7', 'h', 'x'),
 ]]
 
 # commands only the script executor implements (spec/Extras.tla): run through the script paths (and directly, where the
